@@ -43,7 +43,7 @@ def check_pins(ctx, pgpy, pins, who):
 
 
 PINS.update({
-    'PGPKey.parse': '40de9c3dbac1cad6', 'PGPKey.__bytearray__': 'cf5c4a72b4df4a15', 'PGPKey.__or__': 'e00a8edb5482499b', 'PGPKey.__copy__': 'd0947399d9c62607',
+    'PGPKey.parse': '3cb1d97b05bb687e', 'PGPKey.__bytearray__': 'cf5c4a72b4df4a15', 'PGPKey.__or__': 'e00a8edb5482499b', 'PGPKey.__copy__': 'd0947399d9c62607',
     'PGPKey.pubkey': '8ca1b2d84e32a4d4', 'PGPUID.__or__': 'ae8d18457c0f6909', 'PGPUID.__copy__': '2a1154b2ea7b17af', 'PGPUID.__lt__': 'f0e5e2eaa2fbafb7',
     'PGPUID.selfsig': 'f5b0a4b25ee24849', 'PGPUID.is_primary': '2717b1134fb7e336', 'PGPSignature.__lt__': '557ce558d85c25f6',
     'PGPSignature.exportable': '28b877b70aaa4ac8', 'PGPSignature.__copy__': '1be2415cd6075ead',
@@ -173,13 +173,26 @@ class World:
                 embs.append(self.sigpkt(int(g[1]), int(g[2]), int(g[3]), int(g[4]), g[5], False, [], int(g[1])))
             bs = bytes(self.sigpkt(int(f[1]), int(f[2]), int(f[3]), int(f[4]), f[5], f[6] == '1', embs, int(f[1])))
             bs = self.foreign_lengths(bs, int(f[1]))
+            if int(f[1]) % 7 == 3:
+                # a signature of a public-key algorithm PGPy has no signature class for (20 = the former ElGamal encrypt-or-sign, 16 = ElGamal): its
+                # signature octets are kept opaque (fields.OpaqueSignature) - through parse, export AND copy (repair ef1cb48)
+                bb = bytearray(bs)
+                off = 2 if bb[1] < 192 else (3 if bb[1] < 224 else 6)
+                assert bb[off] == 4
+                bb[off + 2] = 20 if int(f[1]) % 2 else 16
+                bs = bytes(bb)
             self.tok_of[bs] = 'S%d' % int(f[1])
             return bs
         if f[0] == 'T':
             return b'\xcc\x02\x00\x06'
         if f[0] == 'O':
+            # an unknown-version signature packet / a private-use tag / a SUBKEY packet of unknown version: skipped with the signatures on it
             idb = int(f[2]).to_bytes(2, 'big')
-            return (b'\xc2\x03\x05' + idb) if f[1] == '1' else ((b'\xfc\x02' + idb) if int(f[2]) % 2 else (b'\xc6\x03\x07' + idb))
+            return (b'\xc2\x03\x05' + idb) if f[1] == '1' else ((b'\xfc\x02' + idb) if int(f[2]) % 2 else (b'\xce\x03\x07' + idb))
+        if f[0] == 'OK':
+            # a PRIMARY key packet (public / secret) of unknown version: skipped, and so is everything up to the next understood primary key (repair bf7dbf5)
+            idb = int(f[1]).to_bytes(2, 'big')
+            return (b'\xc6\x03\x06' if int(f[1]) % 2 else b'\xc5\x03\x07') + idb
         raise ValueError(tok)
 
     # ---- canonical structure of a real key object (same grammar as key_s in drv_c14.ml)
@@ -251,13 +264,33 @@ def gen_blob(rng, thorough=False):
             toks.append('O:1:%d' % st['oid'])
 
     malformed = rng.random()
+    unknown_at = rng.randrange(nkeys + 1) if rng.random() < 0.30 else None       # a primary key of unknown version before key #unknown_at / at the end
+
+    def unknown_key():
+        """an opaque primary key packet followed by what such a key brings along: signatures, user ids, subkeys"""
+        st['oid'] += 1
+        toks.append('OK:%d' % st['oid']); trust()
+        for _ in range(rng.choice((0, 1, 2))):
+            toks.append(gen_sig(rng, st, issuers, (31, 32), rng.randrange(World.NED), times)); trust()
+        for _ in range(rng.choice((0, 1, 1, 2))):
+            st['cid'] += 1
+            toks.append('U:%d:%d' % (0 if rng.random() < 0.2 else 1, st['cid'])); trust()
+            for _ in range(rng.choice((0, 1, 2))):
+                toks.append(gen_sig(rng, st, issuers, (16, 19, 48), rng.randrange(World.NED), times)); opaque_sig()
+        for _ in range(rng.choice((0, 0, 1, 2))):
+            sl = rng.randrange(World.NED + World.NCV)
+            toks.append('K:0:%d:%d:%d' % (rng.randrange(2), 1 if sl < World.NED else 0, sl)); trust()
+            for _ in range(rng.choice((0, 1, 2))):
+                toks.append(gen_sig(rng, st, issuers, (24, 40), rng.randrange(World.NED), times, allow_emb=sl))
     if malformed < 0.02:
         toks.append(gen_sig(rng, st, issuers, (16, 31), 0, times))          # leading signature
     elif malformed < 0.04:
         toks.append('U:1:99')                                              # user id before any key
     elif malformed < 0.06:
         toks.append('K:0:%d:1:%d' % (rng.randrange(2), rng.randrange(World.NED)))   # subkey first
-    for kl in prim_labels:
+    for ki, kl in enumerate(prim_labels):
+        if unknown_at == ki:
+            unknown_key()
         pub = rng.randrange(2)
         toks.append('K:1:%d:1:%d' % (pub, kl)); trust()
         for _ in range(rng.choice((0, 0, 1, 2, 3))):
@@ -289,6 +322,8 @@ def gen_blob(rng, thorough=False):
             toks.append('K:0:%d:%d:%d' % (spub, 1 if sl < World.NED else 0, sl)); trust()
             for _ in range(rng.choice((0, 1, 1, 1, 2, 3))):
                 toks.append(gen_sig(rng, st, issuers, (24, 24, 24, 40, 31), kl, times, allow_emb=sl)); trust(); opaque_sig()
+    if unknown_at == nkeys:
+        unknown_key()
     return toks
 
 
@@ -448,6 +483,7 @@ def run(ctx):
         regressions(ctx, w, d)
         regression_repeated_key(ctx, w, d)
         regression_selfsig(ctx, w, d)
+        regression_unknown_primary(ctx, w, d)
         from . import c15
         c15.history_keys_for_c14(ctx, n=ctx.n(60, 1000))
     finally:
@@ -469,6 +505,19 @@ CORPUS = [
     ['K:1:1:1:0', 'U:1:1', 'S:1:0:19:100:n:0', 'K:1:1:1:1', 'U:1:2', 'S:2:1:19:100:n:1', 'U:1:3', 'S:3:1:19:101:n:1', 'K:1:0:1:2', 'U:0:4'],
     ['K:1:1:1:0', 'U:1:1', 'S:1:0:19:100:n:1', 'U:1:2', 'S:2:0:19:101:n:1', 'S:3:0:48:102:n:0', 'U:1:3', 'S:4:0:19:99:n:1'],
     ['K:1:1:1:0', 'O:0:1', 'S:1:0:19:100:n:0', 'U:1:1', 'O:1:2', 'S:2:0:19:100:n:0'],
+    # repair bf7dbf5: a primary key of unknown version between two keys, with a direct signature, a user id and a subkey of its own (and a leading
+    # signature, now an orphaned packet): nothing of it lands on the key before it; unknown key first / last; an unknown SUBKEY skips only itself
+    ['K:1:1:1:0', 'U:1:1', 'S:2:0:19:100:n:1', 'OK:1', 'S:3:3:31:100:n:0', 'U:1:2', 'S:4:3:19:100:n:1', 'K:0:1:1:4', 'S:5:3:24:100:n:0', 'O:0:2', 'S:6:3:24:100:n:0',
+     'U:1:5', 'K:1:1:1:1', 'U:1:3', 'S:7:1:19:101:n:1'],
+    ['OK:2', 'U:1:9', 'S:1:0:19:100:n:0', 'K:1:0:1:0', 'U:1:1', 'S:2:0:19:100:n:1', 'O:0:2', 'S:3:0:24:100:n:0', 'K:0:0:1:1', 'S:4:0:24:100:n:0', 'OK:1', 'K:0:0:1:2', 'S:5:0:24:100:n:0', 'U:0:7'],
+    # leading signatures are orphaned packets now, and the packet after them goes with them (groupby read-ahead); an opaque one first: just skipped
+    ['S:1:0:19:100:n:0', 'K:1:1:1:0', 'K:1:1:1:1', 'U:1:1', 'S:2:1:19:100:n:1'],
+    ['S:1:0:19:100:n:0', 'S:2:0:16:100:n:0', 'T', 'K:1:1:1:0', 'S:3:0:31:100:n:0', 'U:1:7', 'S:4:0:19:100:n:0', 'K:1:1:1:1', 'U:1:1', 'S:5:1:19:100:n:1'],
+    ['O:1:1', 'S:1:0:19:100:n:0', 'K:1:1:1:1', 'U:1:1', 'S:2:1:19:100:n:1'],
+    ['S:1:0:19:100:n:0', 'O:1:1', 'K:1:1:1:1', 'U:1:1', 'S:2:1:19:100:n:1'],
+    # repair ef1cb48: serial 3 and 10 carry an unsupported public-key algorithm (opaque signature octets) - kept by parse, export and copy
+    ['K:1:1:1:0', 'S:1:0:31:100:n:0', 'S:2:0:31:100:n:0', 'S:3:4:31:101:n:0', 'U:1:1', 'S:4:0:19:100:n:1', 'S:5:0:16:100:n:0', 'S:6:0:16:100:n:0', 'S:7:0:16:100:n:0', 'S:8:0:16:100:n:0',
+     'S:9:0:16:100:n:0', 'S:10:5:16:100:1:0', 'K:0:1:1:1', 'S:11:0:24:100:n:0'],
     # repair 812bc0f: the newer of two primary identities revoked (attested) after its certification stays primary and first
     ['K:1:1:1:0', 'U:1:1', 'S:1:0:19:100:n:1', 'U:1:2', 'S:2:0:19:101:n:1', 'S:3:0:48:102:n:0'],
     ['K:1:1:1:0', 'U:1:1', 'S:1:0:19:100:n:1', 'U:1:2', 'S:2:0:19:101:n:1', 'S:3:0:22:102:n:0'],
@@ -524,6 +573,33 @@ def regression_selfsig(ctx, w, d):
             if got != new or got == old or prim != [True, True]:
                 ctx.fail(suite, 'a certification revocation / attestation by the key hides the self-certification (primary mark, identity order)',
                          dict(case, got=got, model=new, before_repair=old, primary=prim))
+        except Exception as ex:
+            from .common import DriverError
+            if isinstance(ex, DriverError):
+                raise
+            ctx.fail(suite, 'exception while examining the imported key: %s: %s' % (type(ex).__name__, str(ex)[:120]), case)
+
+
+def regression_unknown_primary(ctx, w, d):
+    """repair bf7dbf5 (witness of Props/C14.v C14_unknown_primary_keeps_its_components): the real code must follow the repaired model, not the old one"""
+    suite = 'regression'
+    toks = ['K:1:1:1:0', 'U:1:1', 'OK:9', 'S:1:3:31:100:n:0', 'U:1:2', 'S:2:3:19:100:n:1', 'K:0:1:1:4', 'O:0:3', 'U:1:5', 'K:1:1:1:1', 'U:1:3']
+    for name, tt in (('unknown-primary', toks), ('leading-signature', ['S:9:0:19:100:n:1'] + toks)):
+        case = {'suite': suite, 'tokens': tt}
+        ctx.case(suite, name, sample={'tokens': tt})
+        try:
+            blob = b''.join(w.bytes_of(t) for t in tt)
+            with warnings.catch_warnings():
+                warnings.simplefilter('ignore')
+                r = outcome(w.pgpy.PGPKey.from_blob, blob)
+            got = ('ERR:' + r[1]) if r[0] == 'raise' else ' '.join(w.key_s(k) for k in r[1][1].values())
+            old = d.call('import_bf7', *tt)
+            new = ' '.join(m.split('|')[0] for m in d.call('import', *tt).split(' '))
+            if new == old:
+                ctx.broken.append('regression %s: the model of PGPKey.parse before repair bf7dbf5 does not differ from the repaired one' % name)
+            if got != new or got == old:
+                ctx.fail(suite, 'user ids / subkeys after a primary key of unknown version are given to the key before it (or a leading signature raises)',
+                         dict(case, got=got, model=new, before_repair=old))
         except Exception as ex:
             from .common import DriverError
             if isinstance(ex, DriverError):
